@@ -2,6 +2,7 @@ import Holpy.C20.Model
 import Holpy.C20.Gen
 import Holpy.C20.Proofs
 import Holpy.C20.ProofsSem
+import Holpy.C20.ProofsParse
 /-
 C20 — property theorems (helper lemmas: Proofs.lean, ProofsSem.lean, ProofsParse.lean).
 `Exec` is the big-step semantics of Proofs.lean, `holds s e` is `evalE s e = some (.bool true)`,
@@ -63,6 +64,43 @@ theorem interp_complete (c : Com) (s s' : State) (h : Exec c s s') : ∃ n, inte
   exec_interp h
 
 example : ∃ n, interp n .skip (fun _ => 0) = .ok (fun _ => 0) := ⟨1, rfl⟩
+
+/-! ### printing and re-parsing conditions
+
+`toks e` is the token sequence of the printed form `pp e` (Model.lean; the harness checks
+`lex (pp e) = toks e` on every generated expression), `parseCondToks` is parser2's grammar as Lark's
+LALR(1) parser with shift preference reads it, `wfC e` says `e` is a condition of the assertion
+language (comparisons ==, !=, <=, < of arithmetic expressions over +, -, *, unary -, abs, max; true;
+~, &, |, -->, if-then-else), `normNeg` replaces a negative constant `-n` by unary minus applied to `n`. -/
+
+/-- Printing a condition with (the fixed) `Op.__str__` and parsing the tokens with parser2's grammar
+gives back the same expression, up to the reading of negative constants. -/
+theorem print_parse_tokens (e : Expr) (h : wfC e = true) : parseCondToks (toks e) = some (normNeg e) :=
+  parse_toks e h
+
+example : parseCondToks (toks (.un .not (.bin .and (.bin .eq (.bin .sub (.bin .sub (.var "a") (.var "b")) (.int (-3))) (.int 0)) (.bool true)))) =
+    some (.un .not (.bin .and (.bin .eq (.bin .sub (.bin .sub (.var "a") (.var "b")) (.un .neg (.int 3))) (.int 0)) (.bool true))) := by
+  decide
+
+/-- … and exactly the same expression when it contains no negative constant (what parser2 itself produces). -/
+theorem print_parse_id (e : Expr) (h : wfC e = true) (hn : noNegConst e = true) : parseCondToks (toks e) = some e := by
+  rw [parse_toks e h, normNeg_id e hn]
+
+example : wfC (.bin .imp (.bin .imp (.bool true) (.bool true)) (.ite (.bool true) (.bool true) (.bool true))) = true ∧
+    noNegConst (.bin .imp (.bin .imp (.bool true) (.bool true)) (.ite (.bool true) (.bool true) (.bool true))) = true := by decide
+
+/-- The condition shown to the user, when read back, has the same value in every state as the
+condition computed. PARTIAL: stated on token sequences; the step from the printed string to the
+tokens (`lex (pp e) = toks e`, identifiers that are not keywords) is checked by the harness on
+every generated expression, not proved. -/
+theorem print_parse_sem_partial (e : Expr) (h : wfC e = true) :
+    ∃ e', parseCondToks (toks e) = some e' ∧ ∀ s, evalE s e' = evalE s e :=
+  ⟨normNeg e, parse_toks e h, fun s => evalE_normNeg s e⟩
+
+example : parseCondToks (toks (.bin .le (.bin .mul (.bin .add (.var "a") (.int 1)) (.var "B")) (.un .neg (.var "b")))) =
+      some (.bin .le (.bin .mul (.bin .add (.var "a") (.int 1)) (.var "B")) (.un .neg (.var "b"))) ∧
+    evalE (fun _ => 2) (.bin .le (.bin .mul (.bin .add (.var "a") (.int 1)) (.var "B")) (.un .neg (.var "b"))) =
+      some (.bool false) := ⟨by decide, by decide⟩
 
 /-! ### `Sem` of library/hoare.json (Gen.lean is regenerated from the library on every run) -/
 
